@@ -26,7 +26,7 @@ import (
 func init() {
 	run.Register(&run.Check{
 		ID:   "C16",
-		Rule: "cases are (a) calls of Go functions built with reflect.FuncOf/MakeFunc for parameter lists drawn from {bool, string, 10 integer widths, float32/64, interface{}, named types, []T, [N]T, map[string]T, *T, struct S1/Inner, ...T, otto.Value, FunctionCall style} with JavaScript arguments directed at each width's limits (max, max+1, min-1, +-0.5, +-1.5, 2^31, 2^32, 2^53+2, 2^63, 2^64, NaN, infinities, numeric and non-numeric strings, null, undefined, booleans, arrays, array-likes, sparse arrays, objects), (b) Go functions taking a func(T) U callback implemented by a JavaScript function, (c) Go functions returning one or several values (incl. (T, error)), (d) histories of <= 10 script/Go operations on bridged slices, arrays, maps and structs; a case is non-trivial when the callee was invoked or a script-visible error was observed (a, b), the results were compared (c), or at least two operations were applied and compared against the shadow (d); distinct by serialised input",
+		Rule: "cases are (a) calls of Go functions built with reflect.FuncOf/MakeFunc for parameter lists drawn from {bool, string, 10 integer widths, float32/64, interface{}, named types, []T, [N]T, map[string]T, *T, struct S1/Inner, ...T, otto.Value, FunctionCall style} with JavaScript arguments directed at each width's limits (max, max+1, min-1, +-0.5, +-1.5, 2^31, 2^32, 2^53+2, 2^63, 2^64, NaN, infinities, numeric and non-numeric strings, null, undefined, booleans, arrays, array-likes, sparse arrays, objects), (a2) numbers that originate in Go (every integer kind at its width boundaries, uint/uint64 in [2^63, 2^64), floats), injected with Otto.Set or returned by a bridged function and routed unchanged by the script into a parameter of every numeric type, an element of a []T / map[string]T / *T / ...T parameter, a struct field, or a store into a bridged []T (expected value = the exact Go integer), (b) Go functions taking a func(T) U callback implemented by a JavaScript function, (c) Go functions returning one or several values (incl. (T, error)), (d) histories of <= 10 script/Go operations on bridged slices, arrays, maps and structs; a case is non-trivial when the callee was invoked or a script-visible error was observed (a, b), the results were compared (c), or at least two operations were applied and compared against the shadow (d); distinct by serialised input",
 		Assumptions: []string{
 			"'the Go value it denotes': for a JS Number and an integer type, the same mathematical integer if it is one and in range, else nothing (must fail); for float64 the same double; for float32 the correctly rounded float32 (Go representability rule) unless it overflows (must fail), an inexact result may also be refused; a JS string for a Go string is itself; a boolean for bool is itself; interface{} receives Export's documented normal form compared by value",
 			"non-Number arguments for numeric parameters (numeric strings, null, booleans, objects): neither README nor the statement fixes whether they convert, so a loud failure is accepted, but if the call goes through the received value must equal ES5 ToNumber(v) exactly (in-language Number(v) for objects); undefined / non-numeric strings / NaN must fail for integer targets",
@@ -93,7 +93,10 @@ func generate(r *gen.Rand, i int) Input {
 }
 
 func generate0(r *gen.Rand, i int) Input {
-	switch r.Weighted([]int{62, 8, 8, 22}) {
+	switch r.Weighted([]int{52, 8, 8, 22, 10}) {
+	case 4:
+		g := genGoArg(r)
+		return Input{Op: "goarg", GoArg: &g}
 	case 0:
 		a := genArgCase(r)
 		return Input{Op: "arg", Arg: &a}
@@ -162,6 +165,8 @@ func checkOne(c *run.Ctx, in Input) {
 		switch in.Op {
 		case "arg":
 			nontrivial = k.checkArg(*in.Arg)
+		case "goarg":
+			nontrivial = k.checkGoArg(*in.GoArg)
 		case "cb":
 			nontrivial = k.checkCB(*in.CB)
 		case "ret":
